@@ -97,6 +97,245 @@ theorem findAll_conforming (pre digits : List Char) (hpre : ∀ c ∈ pre, isDig
         have := ih (fun c hc => hpre c (by simp [hc])) fuel (by simp at hf ⊢; omega) false (by intro h; cases h)
         simpa [List.append_assoc] using this
 
+/-! ### `get_frame_id` on names with an arbitrary prefix -/
+
+def kLit : List Char := "_keypoints".toList
+def kJson : List Char := "json".toList
+def kTail : List Char := "_keypoints.json".toList
+
+theorem kLit_nodigit : ∀ x ∈ kLit, isDigit x = false := by decide
+theorem kJson_nodigit : ∀ x ∈ kJson, isDigit x = false := by decide
+
+theorem takeWhile_append_stop (b T : List Char) (h : ∃ x ∈ b, isDigit x = false) :
+    (b ++ T).takeWhile isDigit = b.takeWhile isDigit ∧ (b ++ T).dropWhile isDigit = b.dropWhile isDigit ++ T := by
+  induction b with
+  | nil => obtain ⟨x, hx, _⟩ := h; cases hx
+  | cons y ys ih =>
+    cases hy : isDigit y
+    · simp [List.takeWhile, List.dropWhile, hy]
+    · have : ∃ x ∈ ys, isDigit x = false := by
+        obtain ⟨x, hx, hxd⟩ := h
+        rcases List.mem_cons.mp hx with rfl | hx
+        · rw [hy] at hxd; cases hxd
+        · exact ⟨x, hx, hxd⟩
+      simp [List.takeWhile, List.dropWhile, hy, ih this]
+
+theorem dropWhile_suffix (b : List Char) : b.dropWhile isDigit <:+ b := List.dropWhile_suffix _
+
+/-- the shape a successful `matchTail` forces on its input -/
+theorem matchTail_some (s g rest : List Char) (h : matchTail s = some (g, rest)) :
+    g = s.takeWhile isDigit ∧ g ≠ [] ∧ ∃ dot, s.dropWhile isDigit = kLit ++ dot :: kJson ++ rest := by
+  unfold matchTail at h
+  simp only [] at h
+  have hk : "_keypoints".toList = kLit := rfl
+  have hj' : "json".toList = kJson := rfl
+  rw [hk, hj'] at h
+  generalize kLit = L at *
+  generalize kJson = J at *
+  by_cases hne : (s.takeWhile isDigit).isEmpty = true
+  · rw [if_pos hne] at h; cases h
+  · rw [if_neg hne] at h
+    by_cases hlit : List.take L.length (s.dropWhile isDigit) = L
+    · rw [if_pos hlit] at h
+      cases hdrop : List.drop L.length (s.dropWhile isDigit) with
+      | nil => rw [hdrop] at h; cases h
+      | cons dot r2 =>
+        rw [hdrop] at h
+        simp only [] at h
+        by_cases hj : dot ≠ '\n' ∧ List.take 4 r2 = J
+        · rw [if_pos hj] at h
+          simp only [Option.some.injEq, Prod.mk.injEq] at h
+          refine ⟨h.1.symm, ?_, dot, ?_⟩
+          · rw [← h.1]; intro he; rw [he] at hne; simp at hne
+          · have e1 := List.take_append_drop L.length (s.dropWhile isDigit)
+            have e2 := List.take_append_drop 4 r2
+            rw [hlit, hdrop] at e1
+            rw [hj.2, h.2] at e2
+            rw [← e1, ← e2]
+            simp
+        · rw [if_neg hj] at h; cases h
+    · rw [if_neg hlit] at h; cases h
+
+theorem kTail_head_ne (ds rest : List Char) (hds : ∀ x ∈ ds, isDigit x = true) : ds ++ kTail ≠ kJson ++ rest := by
+  intro h
+  cases ds with
+  | nil =>
+    have : (kTail).head? = (kJson ++ rest).head? := by rw [← h]; rfl
+    have e : (kJson ++ rest).head? = some 'j' := rfl
+    rw [e] at this
+    revert this; decide
+  | cons d ds =>
+    have hd := hds d (by simp)
+    have : some d = (kJson ++ rest).head? := by rw [← h]; rfl
+    have : d = 'j' := by
+      have e : (kJson ++ rest).head? = some 'j' := rfl
+      rw [e] at this; exact Option.some.inj this
+    rw [this] at hd
+    revert hd; decide
+
+/-- a match attempted inside the prefix `b` of `b ++ d0 :: ds ++ "_keypoints.json"` (digits `d0 :: ds`, a non-digit somewhere in `b`) ends inside `b` -/
+theorem matchTail_inside (b ds : List Char) (d0 : Char) (hnd : ∃ x ∈ b, isDigit x = false) (hd0 : isDigit d0 = true) (hds : ∀ x ∈ ds, isDigit x = true)
+    (g rest : List Char) (h : matchTail (b ++ (d0 :: ds ++ kTail)) = some (g, rest)) :
+    ∃ b', rest = b' ++ (d0 :: ds ++ kTail) ∧ b'.length < b.length ∧ b' <:+ b ∧ (b' = [] → ∃ c, (kLit ++ c :: kJson) <:+ b) := by
+  obtain ⟨_, _, dot, hshape⟩ := matchTail_some _ g rest h
+  rw [(takeWhile_append_stop b _ hnd).2] at hshape
+  have hsuf : b.dropWhile isDigit <:+ b := dropWhile_suffix b
+  have hbpos : 0 < b.length := by
+    obtain ⟨x, hx, _⟩ := hnd
+    exact List.length_pos_of_mem hx
+  generalize b.dropWhile isDigit = r at hshape hsuf
+  have hshape' : r ++ (d0 :: ds ++ kTail) = (kLit ++ dot :: kJson) ++ rest := by simpa using hshape
+  rcases List.append_eq_append_iff.mp hshape' with ⟨a', hP, hT⟩ | ⟨c', hr, hT⟩
+  · cases a' with
+    | nil =>
+      refine ⟨[], by simpa using hT.symm, hbpos, List.nil_suffix, fun _ => ⟨dot, ?_⟩⟩
+      rw [hP, List.append_nil]; exact hsuf
+    | cons x a'' =>
+      exfalso
+      simp only [List.cons_append, List.cons.injEq] at hT
+      obtain ⟨hx, hT⟩ := hT
+      subst hx
+      -- kLit ++ dot :: kJson = r ++ d0 :: a''
+      rcases List.append_eq_append_iff.mp hP with ⟨a, hr, hdj⟩ | ⟨c, hl, hdj⟩
+      · -- r = kLit ++ a, dot :: kJson = a ++ d0 :: a''
+        cases a with
+        | nil =>
+          simp only [List.nil_append, List.cons.injEq] at hdj
+          exact kTail_head_ne ds rest hds (by rw [hT, hdj.2])
+        | cons z a2 =>
+          simp only [List.cons_append, List.cons.injEq] at hdj
+          have : d0 ∈ kJson := by rw [hdj.2]; simp
+          have := kJson_nodigit d0 this
+          rw [hd0] at this; cases this
+      · -- kLit = r ++ c, d0 :: a'' = c ++ dot :: kJson
+        cases c with
+        | nil =>
+          simp only [List.nil_append, List.cons.injEq] at hdj
+          exact kTail_head_ne ds rest hds (by rw [hT, hdj.2])
+        | cons y c2 =>
+          simp only [List.cons_append, List.cons.injEq] at hdj
+          have : d0 ∈ kLit := by rw [hl, ← hdj.1]; simp
+          have := kLit_nodigit d0 this
+          rw [hd0] at this; cases this
+  · refine ⟨c', hT, ?_, ?_, ?_⟩
+    · have := hsuf.length_le
+      rw [hr] at this
+      simp only [List.length_append] at this
+      simp only [List.length_cons] at this
+      omega
+    · exact List.IsSuffix.trans (by rw [hr]; exact List.suffix_append _ _) hsuf
+    · intro hc
+      refine ⟨dot, ?_⟩
+      rw [hc, List.append_nil] at hr
+      rw [← hr]; exact hsuf
+
+/-- no complete `_keypoints.json`-shaped literal ends exactly where `s` ends -/
+def NoEnd (s : List Char) : Prop := ∀ c, ¬ (kLit ++ c :: kJson) <:+ s
+
+theorem getLast?_cons_of_some {α : Type} (g : α) (tail : List α) (v : α) (h : tail.getLast? = some v) : (g :: tail).getLast? = some v := by
+  cases tail with
+  | nil => cases h
+  | cons x xs => rw [List.getLast?_cons_cons]; exact h
+
+theorem getLast?_of_suffix {α : Type} (b s : List α) (h : b <:+ s) (hb : b ≠ []) : b.getLast? = s.getLast? := by
+  obtain ⟨t, rfl⟩ := h
+  rw [List.getLast?_append]
+  cases b with
+  | nil => exact absurd rfl hb
+  | cons x xs => rw [List.getLast?_eq_some_getLast (by simp : x :: xs ≠ [])]; rfl
+
+theorem findAll_general (ds : List Char) (d0 : Char) (hd0 : isDigit d0 = true) (hds : ∀ x ∈ ds, isDigit x = true) :
+    ∀ (n : Nat) (s : List Char), s.length ≤ n → ∀ (fuel : Nat) (atStart : Bool), s.length + 1 ≤ fuel →
+      (s = [] → atStart = true) → (∀ x, s.getLast? = some x → isDigit x = false) → NoEnd s →
+      (findAll fuel atStart (s ++ (d0 :: ds ++ kTail))).getLast? = some (d0 :: ds) := by
+  have hall : ∀ c ∈ d0 :: ds, isDigit c = true := by
+    intro c hc; rcases List.mem_cons.mp hc with rfl | hc
+    · exact hd0
+    · exact hds c hc
+  have hconf : matchTail (d0 :: ds ++ kTail) = some (d0 :: ds, []) := matchTail_conforming (d0 :: ds) (by simp) hall
+  intro n
+  induction n with
+  | zero =>
+    intro s hs fuel atStart hf hst _ _
+    have : s = [] := List.eq_nil_of_length_eq_zero (by omega)
+    subst this
+    have := hst rfl; subst this
+    cases fuel with
+    | zero => simp at hf
+    | succ fuel =>
+      simp only [List.nil_append, List.cons_append] at hconf ⊢
+      simp only [findAll, if_true, hconf]
+      cases fuel <;> simp [findAll]
+  | succ n ih =>
+    intro s hs fuel atStart hf hst hlast hno
+    cases s with
+    | nil => exact ih [] (by simp) fuel atStart hf hst hlast hno
+    | cons p ps =>
+      cases fuel with
+      | zero => simp at hf
+      | succ fuel =>
+        -- continuing after a match that ended inside the prefix
+        have cont : ∀ (b : List Char), b <:+ p :: ps → (∃ x ∈ b, isDigit x = false) → ∀ g rest, matchTail (b ++ (d0 :: ds ++ kTail)) = some (g, rest) →
+            (g :: findAll fuel false rest).getLast? = some (d0 :: ds) := by
+          intro b hb hnd g rest hm
+          obtain ⟨b', hrest, hlen, hsuf, hnil⟩ := matchTail_inside b ds d0 hnd hd0 hds g rest hm
+          have hsuf' : b' <:+ p :: ps := hsuf.trans hb
+          have hb' : b' ≠ [] := by
+            intro he
+            obtain ⟨c, hc⟩ := hnil he
+            exact hno c (hc.trans hb)
+          apply getLast?_cons_of_some
+          rw [hrest]
+          have hbl := hb.length_le
+          simp only [List.length_cons] at hs hf hbl
+          apply ih b' (by omega) fuel false (by omega) (fun h => absurd h hb')
+          · intro x hx; rw [getLast?_of_suffix b' _ hsuf' hb'] at hx; exact hlast x hx
+          · intro c hc; exact hno c (hc.trans hsuf')
+        have hndS : ∃ x ∈ p :: ps, isDigit x = false := by
+          have hne : (p :: ps) ≠ [] := by simp
+          refine ⟨(p :: ps).getLast hne, List.getLast_mem hne, hlast _ (List.getLast?_eq_some_getLast hne)⟩
+        simp only [List.cons_append, findAll]
+        cases h1 : (if atStart = true then matchTail (p :: (ps ++ (d0 :: (ds ++ kTail)))) else none) with
+        | some gr =>
+          obtain ⟨g, rest⟩ := gr
+          simp only []
+          have hm : matchTail ((p :: ps) ++ (d0 :: ds ++ kTail)) = some (g, rest) := by
+            split at h1
+            · simpa using h1
+            · cases h1
+          exact cont (p :: ps) (List.suffix_refl _) hndS g rest hm
+        | none =>
+          simp only []
+          cases ps with
+          | nil =>
+            have hp : isDigit p = false := hlast p rfl
+            simp only [hp, Bool.not_false, if_true, List.nil_append]
+            simp only [List.cons_append] at hconf
+            simp only [hconf]
+            cases fuel <;> simp [findAll]
+          | cons q qs =>
+            have hndQ : ∃ x ∈ q :: qs, isDigit x = false := by
+              have hne : (q :: qs) ≠ [] := by simp
+              refine ⟨(q :: qs).getLast hne, List.getLast_mem hne, hlast _ ?_⟩
+              rw [List.getLast?_cons_cons]; exact List.getLast?_eq_some_getLast hne
+            have hrec : (findAll fuel false ((q :: qs) ++ (d0 :: ds ++ kTail))).getLast? = some (d0 :: ds) := by
+              apply ih (q :: qs) (by simp at hs ⊢; omega) fuel false (by simp at hf ⊢; omega) (fun h => by cases h)
+              · intro x hx; apply hlast x; rw [List.getLast?_cons_cons]; exact hx
+              · intro c hc; exact hno c (hc.trans (List.suffix_cons _ _))
+            cases h2 : (if (!isDigit p) = true then matchTail (q :: qs ++ (d0 :: (ds ++ kTail))) else none) with
+            | some gr =>
+              obtain ⟨g, rest⟩ := gr
+              simp only []
+              have hm : matchTail ((q :: qs) ++ (d0 :: ds ++ kTail)) = some (g, rest) := by
+                split at h2
+                · simpa using h2
+                · cases h2
+              exact cont (q :: qs) (List.suffix_cons _ _) hndQ g rest hm
+            | none =>
+              simp only []
+              simpa using hrec
+
+
 /-! non-vacuity -/
 def natSc : Scalar Nat := { zero := 0, add := (· + ·), sub := (· - ·), mul := (· * ·), div := (· / ·), pow := (· ^ ·), sqrt := Nat.sqrt, ofNat := id, isFinite := fun _ => true, isNaN := fun _ => false }
 end PoseVerif.Props.C19
